@@ -14,7 +14,10 @@ use std::process::{Command, Stdio};
 use std::time::Instant;
 
 pub const DEFAULT_SEED: u64 = 20261001;
-pub const VERIF: &str = "/verif";
+/// root of the verification tree: $GASIM_ROOT (set by bin/check to the directory it lives in), default /verif
+pub fn verif_root() -> String {
+    std::env::var("GASIM_ROOT").unwrap_or_else(|_| "/verif".to_string())
+}
 
 pub fn env_seed() -> u64 {
     match std::env::var("VERIF_SEED") {
@@ -41,7 +44,7 @@ pub fn harness_error(msg: &str) -> ! {
 }
 
 fn tmp_dir() -> PathBuf {
-    let p = PathBuf::from(format!("{VERIF}/target/tmp/run-{}", std::process::id()));
+    let p = PathBuf::from(format!("{}/target/tmp/run-{}", verif_root(), std::process::id()));
     std::fs::create_dir_all(&p).unwrap_or_else(|e| harness_error(&format!("cannot create {p:?}: {e}")));
     p
 }
@@ -58,7 +61,7 @@ pub struct Known {
 }
 
 pub fn load_known() -> Vec<Known> {
-    let p = format!("{VERIF}/known_findings.json");
+    let p = format!("{}/known_findings.json", verif_root());
     let Ok(s) = std::fs::read_to_string(&p) else { return Vec::new() };
     let v: Value = serde_json::from_str(&s).unwrap_or_else(|e| harness_error(&format!("known_findings.json: {e}")));
     let mut out = Vec::new();
@@ -842,7 +845,7 @@ fn write_evidence(prop: Prop, tier: &str, seed: u64, b: &Batch, wall: f64, viola
         "wall_s": wall,
         "violations": violations,
     });
-    let dir = format!("{VERIF}/evidence");
+    let dir = format!("{}/evidence", verif_root());
     let _ = std::fs::create_dir_all(&dir);
     let p = format!("{dir}/{}.json", prop.name());
     std::fs::write(&p, serde_json::to_string_pretty(&ev).unwrap()).unwrap_or_else(|e| harness_error(&format!("{p}: {e}")));
@@ -916,8 +919,8 @@ pub fn check(prop: Prop, tier: &str) -> i32 {
         let mut j = trace_to_json(&t);
         j["violation"] = json!({"class": v.class, "at_op": v.at_op, "op": v.op_name, "detail": v.detail});
         std::fs::write(&inp, serde_json::to_vec(&j).unwrap()).unwrap();
-        let _ = std::fs::create_dir_all(format!("{VERIF}/replays"));
-        let out = PathBuf::from(format!("{VERIF}/replays/{}-{}.json", prop.name(), rseed));
+        let _ = std::fs::create_dir_all(format!("{}/replays", verif_root()));
+        let out = PathBuf::from(format!("{}/replays/{}-{}.json", verif_root(), prop.name(), rseed));
         let end = run_child(&["minimise".into(), inp.to_string_lossy().to_string(), out.to_string_lossy().to_string()], &[], true);
         let _ = std::fs::remove_dir_all(&dir);
         if end.code != Some(0) {
